@@ -8,6 +8,7 @@ pub mod c01;
 pub mod c02;
 pub mod c03;
 pub mod c04;
+pub mod c04e;
 pub mod c05;
 pub mod c06;
 pub mod c07;
@@ -40,7 +41,10 @@ pub fn by_id(id: &str) -> Option<Arc<dyn DynMonitor>> {
         "C01" => Arc::new(Erased(c01::C01)),
         "C02" => Arc::new(Erased(c02::C02)),
         "C03" => Arc::new(Erased(c03::C03)),
-        "C04" => Arc::new(Erased(c04::C04)),
+        "C04" => Arc::new(Multi {
+            id: "C04",
+            parts: vec![Arc::new(Erased(c04::C04)), Arc::new(Erased(c04e::C04e))],
+        }),
         "C05" => Arc::new(Erased(c05::C05)),
         "C08" => Arc::new(Erased(c08::C08)),
         "C11" => Arc::new(Erased(c11::C11)),
